@@ -391,6 +391,12 @@ class Manager:
     def removeHandler(self, method, event=None):
         names = method.names if event is None else [event]
 
+        if not names:
+            # handler for all events: kept as a global or under '*'
+            self._globals.discard(method)
+            if method in self._handlers.get('*', ()):
+                names = ['*']
+
         for name in names:
             self._handlers[name].remove(method)
             if not self._handlers[name]:
